@@ -127,6 +127,18 @@ def apply_op(api, st, op):
             st.passed["C"] = 77
             st.passed["?"] = 0
             st.passed["Zz"] = 5
+    elif kind == "edit_and_reset":
+        # the caller edits the dict it passed before (valid values) and passes the same object again
+        if st.passed is not None and "Zz" not in st.passed:
+            d = st.passed
+            d["C"] = 1 if d.get("C") != 1 else 2
+            d["N+1"] = 1 if d.get("N+1") != 1 else 3
+            try:
+                api.set(d)
+                st.cur = dict(d)
+                st.alpha_dirty = False
+            except ValueError:
+                st.problem("set rejected the edited (valid) table passed again as the same object")
     elif kind == "decode":
         try:
             api.decoder(op["x"])
